@@ -43,6 +43,7 @@ def pairs_of(mask, n):
 def events_of(raw, n):
     """tr_* hook events of one step -> TraceStep events"""
     ev, word, bs, sum0 = [], [], [], None
+    bsna = -1
     for name, a in raw:
         if name == "tr_begin":
             sum0 = [repr(a[0]), repr(a[1])]
@@ -57,22 +58,23 @@ def events_of(raw, n):
         elif name == "tr_bs":
             word[-1] = "B"
             bs = bits(a[3], n)
+            bsna = int(a[4])
         elif name == "tr_com":
             word.append("Com")
         elif name == "tr_full":
             word.append("Full")
         elif name in ("tr_post", "tr_end"):
             if word:
-                ev.append({"e": "word", "w": word, "bs": bs})
-                word, bs = [], []
+                ev.append({"e": "word", "w": word, "bs": bs, "bsna": bsna})
+                word, bs, bsna = [], [], -1
             if name == "tr_post":
                 ev.append({"e": "post", "C": bool(a[0]), "K": pairs_of(a[3], n), "E": bits(a[4], n), "new": bool(a[5])})
             else:
                 ev.append({"e": "end", "forced": bool(a[0])})
         elif name == "tr_reject":
             if word:
-                ev.append({"e": "word", "w": word, "bs": bs})
-                word, bs = [], []
+                ev.append({"e": "word", "w": word, "bs": bs, "bsna": bsna})
+                word, bs, bsna = [], [], -1
             ev.append({"e": "reject", "sum": [repr(a[0]), repr(a[1])]})
     return ev, sum0
 
